@@ -50,7 +50,7 @@ CHECKS = {
          "DESIGN.md §3 C09"),
  "C10": ("E2/E5/E3", "model_checking",
          "controlled scheduler (E2) enumerating all schedules of the REAL run_progress threads (worker transitions, reporter iterations, stats-timer firings) under a deviation bound; explicit-state abstract reporter model for every N=1..48 with conformance replay of model paths on the real reporter; exhaustive fault-point enumeration",
-         "Layer 1: the real ChainRunner::run_progress and NUTS::run_progress run on real OS threads serialised at hook points; every schedule with <= 1-2 (quick) / 2-4 (thorough) deviations from the default is executed for N = 1..3 chains (and 6), plus the arrival-order reduction for N in {5,6,7,11,16,48}; each execution must return, give run's draws bit for bit (NUTS: shifted by one), diagnostics equal to RunStats::from(draws), and the reporter must exit within ceil(N/5)+3 iterations after the last worker (else: hang). Layer 2: BFS of the abstract reporter (slots, next_active, n_finished) with chain identities for N <= 9/12 and as a quotient for every N = 1..48: invariants, progress, bounded exit from every state; model paths (all for N <= 4/6, transition cover for larger N incl. 48) are replayed on the real reporter and compared iteration by iteration through the observe hook. Layer 3: the statistics receiver dropped before the call, after transition k for every k, after the call (with and without a send at every step); reporter killed at iteration 0..2; precision grid T x backend for HMC and NUTS, MH/Gibbs with 1..12 chains.",
+         "Layer 1: the real ChainRunner::run_progress and NUTS::run_progress run on real OS threads serialised at hook points; every schedule with <= 1-2 (quick) / 2-4 (thorough) deviations from the default is executed for N = 1..3 chains (and 6), plus the arrival-order reduction for N in {5,6,7,11,16,48}; each execution must return, give run's draws bit for bit (NUTS: shifted by one), diagnostics equal to RunStats::from(draws), and the reporter must exit within ceil(N/5)+3 iterations after the last worker (else: hang). Layer 2: BFS of the abstract reporter (slots, next_active, n_finished) with chain identities for N <= 9/12 and as a quotient for every N = 1..48: invariants, progress, bounded exit from every state; model paths (all for N <= 4/6, transition cover for larger N incl. 48) are replayed on the real reporter and compared iteration by iteration through the observe hook; the model itself is cross-checked by TLC on a TLA+ transcription (same invariants, termination under weak fairness, equal reachable-state counts). Layer 3: the statistics receiver dropped before the call, after transition k for every k, after the call (with and without a send at every step); reporter killed at iteration 0..2; precision grid T x backend for HMC and NUTS, MH/Gibbs with 1..12 chains.",
          "Sequentially consistent interleavings at hook granularity; time replaced by choices (sleep = yield, 1 s timer = binary choice). Arrival-order reduction argued in DESIGN C10. One session per process (single-threaded exploration).",
          "DESIGN.md §3 C10"),
  "C11": ("E4", "model_checking",
